@@ -53,8 +53,6 @@ func enumSysVarRegion() *regexp.Regexp {
 	return re(`@@[\w.]*(` + strings.Join(names, "|") + `)\b`)
 }
 
-const noEncoderCharsets = `armscii8|cp1250|cp1251|cp1256|cp1257|cp850|cp852|cp866|cp932|dec8|eucjpms|euckr|gb18030|gb2312|gbk|geostd8|greek|hebrew|hp8|keybcs2|koi8r|koi8u|latin2|latin5|latin7|macce|macroman|sjis|swe7|tis620|ucs2|ujis|big5`
-
 var findings = []finding{
 	// ---- process-killing (fatal error: stack overflow) ------------------------------------
 	{id: "C10-view-self-reference", frames: []string{"planbuilder.(*Builder).resolveView"}, fatal: true,
@@ -64,9 +62,6 @@ var findings = []finding{
 		region:  re("``.*\\b(union|intersect|except)\\b|\\b(union|intersect|except)\\b.*``"),
 		witness: []string{"SELECT '' UNION SELECT 1 WHERE ``"}},
 	// ---- recoverable panics escaping Engine.Query -------------------------------------------
-	{id: "C10-rangemap-encode", frames: []string{"encodings.(*RangeMap).Encode"},
-		region:  re(`\busing\s+(latin1|ascii|utf16|utf16le|utf32|ucs2|utf8mb3|utf8)\b`),
-		witness: []string{"SELECT HEX(CONVERT('añb' USING latin1))"}},
 	{id: "C10-in-list-out-of-range-index", frames: []string{"transform.Expr"},
 		region:  re(`\b(ti|one_pk|two_pk|w)\b.*\bin\s*\(|\bin\s*\(.*\b(ti|one_pk|two_pk|w)\b`),
 		witness: []string{"SELECT * FROM ti WHERE b IN (-129, 300)"}},
@@ -74,8 +69,6 @@ var findings = []finding{
 		witness: []string{"SET PERSIST max_connections = 10"}},
 	{id: "C10-readonly-txn", frames: []string{"analyzer.validateReadOnlyTransaction"}, region: re(`\bread\s+only\b|transaction_read_only|tx_read_only`),
 		witness: []string{"START TRANSACTION READ ONLY", "INSERT INTO xy VALUES (9, 9)"}},
-	{id: "C10-convert-using-no-encoder", frames: []string{"expression.(*ConvertUsing).Eval"}, region: re(`\busing\s+(` + noEncoderCharsets + `)\b`),
-		witness: []string{"SELECT CONVERT('a' USING koi8r)"}},
 	{id: "C10-default-column-type", frames: []string{"expression.(*DefaultColumn).Type"}, region: re(`\bdefault\s*\(`),
 		witness: []string{"SELECT DEFAULT(s) FROM mytable"}},
 	{id: "C10-create-event-interval", frames: []string{"plan.(*CreateEvent).GetEventDefinition"}, region: re(`\bevent\b.*\bevery\b`),
@@ -99,8 +92,6 @@ var findings = []finding{
 		witness: []string{"SELECT COUNT(*) FROM information_schema.column_statistics"}},
 	{id: "C10-collate-system-variable", frames: []string{"expression.(*CollatedExpression).Eval"}, region: re(`@@[\w.]+\s+collate`),
 		witness: []string{"SELECT @@global.version COLLATE ascii_general_ci"}},
-	{id: "C10-system-enum-to-string", frames: []string{"expression.(*EnumToString).Eval"}, region: enumSysVarRegion(),
-		witness: []string{"SELECT CAST(@@session.tx_isolation AS CHAR)"}},
 	{id: "C10-show-variables-where", frames: []string{"rowexec.(*BaseBuilder).buildShowVariables"}, region: re(`\bshow\b.*\b(variables|status)\b.*\bwhere\b`),
 		witness: []string{"SHOW VARIABLES WHERE @b"}},
 	{id: "C10-interval-placeholder", frames: []string{"expression.(*Interval).Eval"}, region: re(`\binterval\b`),
@@ -127,6 +118,18 @@ var findings = []finding{
 	// ---- the tables stay consistent for a fresh session ---------------------------------------
 	{id: "C10-empty-column-name", region: re("\\b(alter|create)\\b.*``"),
 		witness: []string{"ALTER TABLE ab ADD COLUMN `` INT"}, after: "SELECT * FROM ab"},
+}
+
+// regressions are witnesses of defects that were repaired in /repo while this check was built
+// (by fix: commits of other properties); they are kept as plain replay scripts without a
+// finding id, so a returning defect is reported.
+var regressions = []finding{
+	{id: "C10-rangemap-encode", frames: []string{"encodings.(*RangeMap).Encode"},
+		witness: []string{"SELECT HEX(CONVERT('añb' USING latin1))"}},
+	{id: "C10-convert-using-no-encoder", frames: []string{"expression.(*ConvertUsing).Eval"},
+		witness: []string{"SELECT CONVERT('a' USING koi8r)"}},
+	{id: "C10-system-enum-to-string", frames: []string{"expression.(*EnumToString).Eval"},
+		witness: []string{"SELECT CAST(@@session.tx_isolation AS CHAR)"}},
 }
 
 // classify returns the finding whose signature matches a recovered panic, or nil.
